@@ -1,6 +1,8 @@
 """Evaluate a delivered mutant: confirm (tests pass with the change, demo fails with / passes without),
 then run the machinery of the given properties against the changed tree (scratch worktree /tmp/mut).
-usage: evalmut.py <Cxx> <a|b> [props...]   -> prints a JSON summary"""
+usage: evalmut.py <Cxx> <a|b> [props...]   -> prints a JSON summary   (MUT_SUFFIX=.out2: second round)
+       evalmut.py --dir <dir with patch.diff, demo.py> <Cxx> [props...]
+The scratch worktree /tmp/mut is created if missing and moved to /repo's HEAD."""
 import json, os, subprocess, sys, shutil
 VERIF = os.path.dirname(os.path.dirname(os.path.abspath(__file__)))
 WT = '/tmp/mut'
@@ -47,10 +49,18 @@ print("RESULT " + json.dumps({{"scenarios": len(sc), "diffs": len(diffs), "monit
 
 
 def main():
-    pid, x = sys.argv[1], sys.argv[2]
-    props_to_run = sys.argv[3:] or [pid]
-    d = f'/tmp/mutants/{pid}{os.environ.get("MUT_SUFFIX", ".out")}/{x}'
-    res = {'mutant': f'{pid}{x}'}
+    if sys.argv[1] == '--dir':
+        d, pid = os.path.abspath(sys.argv[2]), sys.argv[3]
+        props_to_run = sys.argv[4:] or [pid]
+        res = {'mutant': os.path.basename(d)}
+    else:
+        pid, x = sys.argv[1], sys.argv[2]
+        props_to_run = sys.argv[3:] or [pid]
+        d = f'/tmp/mutants/{pid}{os.environ.get("MUT_SUFFIX", ".out")}/{x}'
+        res = {'mutant': f'{pid}{x}'}
+    if not os.path.isdir(WT):
+        sh(f'git -C /repo worktree prune; git -C /repo worktree add --detach {WT}')
+    sh(f'git -C {WT} checkout -q --detach $(git -C /repo rev-parse HEAD)')
     sh(f'git -C {WT} checkout -q -- . && git -C {WT} clean -fdq')
     rc0, o0 = sh(f'cd {WT} && PYTHONPATH={WT} /venv/bin/python {d}/demo.py')
     res['demo_without_change_rc'] = rc0
